@@ -49,6 +49,7 @@ fn streams() -> Vec<(&'static str, GenFn, EvalFn)> {
         ("determ", s_determ::gen, s_determ::eval),
         ("namer", s_determ::gen_namer, s_determ::eval_namer),
         ("dialect", s_dialect::gen, s_dialect::eval),
+        ("dialectdp", s_dialect::gen_dp, s_dialect::eval_dp),
         ("total", s_total::gen, s_total::eval),
         ("arith", s_arith::gen, s_arith::eval),
         ("split", s_split::gen, s_split::eval),
